@@ -1,6 +1,8 @@
 import Pcore.Proofs.LoaderConc
 import Pcore.Model.Lockset
 import Pcore.Generated.Locksets
+import Pcore.Proofs.LazyCache
+import Pcore.Generated.CacheSites
 /-!
 # C13 — Shared loaders, types and values are safe under concurrent use
 
@@ -31,8 +33,13 @@ Full statement / proved / missing
 * second tie: `C13_lockset_ok` — the table of every read/write site of the shared loader fields with the mutexes held
   there, regenerated from loader/*.go on every run, satisfies the lock discipline (`decide`); `C13_lockset_norace` —
   for ANY table satisfying it no two conflicting accesses can overlap (they share a mutex, one side exclusively).
+* lazily built type caches (`Model/LazyCache.lean`): `C13_lazy_caches` — for a table of publication sites that satisfies
+  `publishAfterInit` (the publishing write is the last write to the object) no reader, under any interleaving, observes a
+  half-built type; the table regenerated from types/*.go does NOT satisfy it (`C13_publish_order_fails`, known finding
+  C13-type-cache-published-before-init) and the model built from that table exhibits the half-built answer
+  (`C13_cache_half_built`), as the implementation does under the same schedule.
 * missing (stated, not hidden): the answer of a concurrent `Discover`; `C13_once` (file-based instantiate exactly once)
-  and `C13_lazy_caches` (PublishAfterInit for the lazily built type caches) are not modelled yet; the Go memory model,
+  is not modelled yet; nested containers and the other read paths (hash keys, type checks) of shared values; the Go memory model,
   the real scheduler, torn reads and `-race` findings cannot be exhibited by an interleaving model at all — the lock-set
   table is syntactic and trusted.
 -/
@@ -191,6 +198,50 @@ theorem C13_miss_window_crash_before_fix :
   decide +kernel
 
 end Pcore.LoaderConc
+
+/-! ### lazily built type caches -/
+namespace Pcore.LazyCache
+
+/-- a table that satisfies the discipline and knows the four fill functions configures the model with publication last -/
+theorem C13_cfg_of_table (tbl : List CacheSite) (h : publishAfterInit tbl = true)
+    (hk : ∀ fn ∈ ["Array.privateReducedType", "Array.privateDetailedType", "Hash.privateReducedType", "Hash.privateDetailedType"],
+      tbl.any (·.fn == fn) = true) : Cfg.ofTable tbl = cleanCfg := by
+  have hall : ∀ fn, (tbl.filter (·.fn == fn)).all (·.publishLast) = true := by
+    intro fn
+    rw [List.all_eq_true]
+    intro x hx
+    exact List.all_eq_true.mp h x (List.mem_filter.mp hx).1
+  simp only [Cfg.ofTable, fnPublishesLast, hall, Bool.and_true, cleanCfg]
+  rw [hk _ (by simp), hk _ (by simp), hk _ (by simp), hk _ (by simp)]
+  rfl
+
+/-- publication last ⇒ an inferred type is never observed half-built: under every interleaving of any number of threads
+    every `PType()` / `DetailedValueType` / `String()` of the shared value answers what a single goroutine gets -/
+theorem C13_lazy_caches (tbl : List CacheSite) (h : publishAfterInit tbl = true)
+    (hk : ∀ fn ∈ ["Array.privateReducedType", "Array.privateDetailedType", "Hash.privateReducedType", "Hash.privateDetailedType"],
+      tbl.any (·.fn == fn) = true)
+    (k : Kind) (n : Nat) (progs : List (List COp)) (c : Config)
+    (hr : Reachable (Cfg.ofTable tbl) (Config.init k n progs) c) : ∀ t ∈ c.th, ∀ o ∈ t.log, o = .full := by
+  rw [C13_cfg_of_table tbl h hk] at hr
+  exact (CInv_reachable (CInv_init k n progs) hr).2
+
+/-- the code as it is does not follow the discipline (known finding C13-type-cache-published-before-init) … -/
+theorem C13_publish_order_fails : publishAfterInit Pcore.Generated.cacheSites = false := by decide
+
+/-- … and a second reader does see the half-built type: thread 0 is parked right after publishing the reduced type of a
+    one-element Array when thread 1 asks for it (the schedule `0 1` of the finding's first witness op) -/
+theorem C13_cache_half_built :
+    ∃ c, Reachable (Cfg.ofTable Pcore.Generated.cacheSites) (Config.init .arr 1 [[.ptype], [.ptype]]) c ∧
+      ∃ t ∈ c.th, Obs.half ∈ t.log :=
+  ⟨_, Reachable.step 1 (Reachable.step 0 Reachable.init), by decide⟩
+
+-- non-vacuity of C13_lazy_caches: the table the extractor would emit for publication-last code meets the hypotheses
+def fixedSites : List CacheSite := Pcore.Generated.cacheSites.map fun s => { s with publishLast := true }
+example : publishAfterInit fixedSites = true ∧ Cfg.ofTable fixedSites = cleanCfg := by decide
+-- and the current table configures the model with publication first in all four functions
+example : Cfg.ofTable Pcore.Generated.cacheSites = { arrRed := true, arrDet := true, hshRed := true, hshDet := true } := by decide
+
+end Pcore.LazyCache
 
 /-! ### second tie: the regenerated lock-set table -/
 namespace Pcore.Lockset
